@@ -1,5 +1,6 @@
 import Driver.Proto
 import PolyVerif.Model.Tree
+import PolyVerif.Model.RenderPrims
 
 namespace Driver.C16
 open PolyVerif PolyVerif.Tree PolyVerif.Gen.geometry
@@ -54,6 +55,64 @@ def natList (ts : List String) : Option (List Nat × List String) := do
 def sortNat (l : List Nat) : List Nat := (l.toArray.qsort (· < ·)).toList
 
 def bbTo (b : AABB Float) : List Float := [b.center.x, b.center.y, b.center.z, b.extents.x, b.extents.y, b.extents.z]
+
+/-! round 2: the rendering primitives (`Model/RenderPrims.lean`) -/
+open PolyVerif.RPrims PolyVerif.Gen.rendering in
+def hitStr (h : Option (HitOut Float)) : String :=
+  match h with
+  | none => "false"
+  | some h => "true " ++ fHex h.dist ++ " " ++ fsHex [h.point.x, h.point.y, h.point.z]
+
+def distStr (h : Option Float) : String :=
+  match h with
+  | none => "false"
+  | some d => "true " ++ fHex d
+
+open PolyVerif.RPrims PolyVerif.Gen.rendering in
+/-- one-object `NewBVHTree` (span 1: the object is both children; box = empty + 2 × EncapsulateBounds) -/
+def oneNode (p : RPrim Float) : Bvh (AABB Float) (RPrim Float) :=
+  .node (nodeBox p.box p.box) (.leaf p) (.leaf p)
+
+open PolyVerif.RPrims PolyVerif.Gen.rendering in
+/-- the record `BVHNode.Hit` leaves for a one-object node: flag/distance from the model's `bvhHit`; the point is
+    that of the last successful primitive `Hit` (right child on the shortened range, else left) -/
+def oneNodeRec (ray : TemporalRay Float) (p : RPrim Float) (mn mx : Float) : Option (HitOut Float) :=
+  match bvhHit ray (oneNode p) mn mx with
+  | none => none
+  | some d =>
+    let l := p.hit ray mn mx
+    let rT := match l with | some h => h.dist | none => mx
+    let pt := match p.hit ray mn rT with
+      | some h => h.point
+      | none => match l with | some h => h.point | none => ⟨0, 0, 0⟩
+    some ⟨d, pt⟩
+
+open PolyVerif.RPrims PolyVerif.Gen.rendering in
+def primLine (kind : String) (fs : List Float) : Option String :=
+  match kind, fs with
+  | "sphere", [a1, a2, a3, b1, b2, b3, c1, c2, c3, r, ox, oy, oz, dx, dy, dz, time, mn, mx] =>
+    let p : RPrim Float := .sphere ⟨a1, a2, a3⟩ ⟨b1, b2, b3⟩ ⟨c1, c2, c3⟩ r
+    let ray : TemporalRay Float := ⟨⟨ox, oy, oz⟩, ⟨dx, dy, dz⟩, time⟩
+    some (fsHex (bbTo p.box) ++ " " ++ hitStr (p.hit ray mn mx) ++ " " ++ distStr (bvhHit ray (oneNode p) mn mx))
+  | "rect", [blx, bly, trx, try', depth, ox, oy, oz, dx, dy, dz, time, mn, mx] =>
+    let p : RPrim Float := .rect ⟨blx, bly⟩ ⟨trx, try'⟩ depth
+    let ray : TemporalRay Float := ⟨⟨ox, oy, oz⟩, ⟨dx, dy, dz⟩, time⟩
+    some (fsHex (bbTo p.box) ++ " " ++ hitStr (p.hit ray mn mx) ++ " " ++ distStr (bvhHit ray (oneNode p) mn mx))
+  | "tri", [a1, a2, a3, b1, b2, b3, c1, c2, c3, ox, oy, oz, dx, dy, dz, time, mn, mx] =>
+    let p : RPrim Float := .tri ⟨a1, a2, a3⟩ ⟨b1, b2, b3⟩ ⟨c1, c2, c3⟩
+    let ray : TemporalRay Float := ⟨⟨ox, oy, oz⟩, ⟨dx, dy, dz⟩, time⟩
+    some (fsHex (bbTo (nodeBox p.box p.box)) ++ " " ++ hitStr (oneNodeRec ray p mn mx))
+  | _, _ => none
+
+/-- oracle: point inside the box up to rounding (relative slack 1e-9) -/
+def inBoxTol (b : AABB Float) (p : V3 Float) : Bool :=
+  let tol (x : Float) : Float := 1e-9 * (1 + x.abs)
+  let mn := b.Min
+  let mx := b.Max
+  mn.x - tol p.x ≤ p.x && p.x ≤ mx.x + tol p.x &&
+  mn.y - tol p.y ≤ p.y && p.y ≤ mx.y + tol p.y &&
+  mn.z - tol p.z ≤ p.z && p.z ≤ mx.z + tol p.z
+
 
 def handle (op : String) (args : List String) : Option String := do
   match op with
@@ -198,6 +257,14 @@ def handle (op : String) (args : List String) : Option String := do
         let hits ← go rest
         if hits.isEmpty then pure (boolStr (fa == "false"))
         else pure (boolStr (fa == "true" && hits.all (fun d => da ≤ d) && hits.any (fun d => d == da)))
+      | _ => none
+  | "c16.prim.sphere" => do primLine "sphere" (← floats? args)
+  | "c16.prim.rect" => do primLine "rect" (← floats? args)
+  | "c16.prim.tri" => do primLine "tri" (← floats? args)
+  | "c16.holds.prim_in_box" => do
+      let fs ← floats? (args.drop 1)
+      match fs with
+      | [a, b, c, d, e, f, x, y, z] => pure (boolStr (inBoxTol (⟨⟨a, b, c⟩, ⟨d, e, f⟩⟩ : AABB Float) ⟨x, y, z⟩))
       | _ => none
   | _ => none
 
